@@ -28,6 +28,7 @@ class Knobs:
         self.send_names = EVENTS     # names used by send(): disjoint from triggers ⇒ no self-sustaining loops
         self.no_state_names = False  # code never mentions state names (C17)
         self.avoid_nondet = True     # transitions of one state on one event get distinct priorities
+        self.shared_code = 0.06      # an action whose source text is also a plausible guard / condition text
         self.history_focus = 0.0     # probability, per history state, of adding leave / come-back transitions
         self.__dict__.update(kw)
 
@@ -60,6 +61,15 @@ class ChartGen:
         r, k = self.r, self.k
         if not k.code or r.random() < 0.25:
             return None
+        if k.shared_code and r.random() < k.shared_code:
+            # the same source string as some guard or contract condition (the evaluator caches
+            # compiled code per source string, separately for `exec` and `eval`)
+            opts = ['x % 2 == 0', 'x > y', 'x < 5', 'x >= 0', 'x + 1 > x']
+            if k.flags:
+                opts += ['v%d' % i for i in range(k.flags)] + ['not v%d' % i for i in range(k.flags)]
+            if k.cflags and k.contracts:
+                opts += ['c%d' % i for i in range(k.cflags)]
+            return r.choice(opts)
         stmts = []
         for _ in range(r.randint(1, 2)):
             c = r.random()
@@ -263,6 +273,10 @@ def gen_ops(r, knobs, n_ops, slot=0, t0=0):
             if r.random() < 0.2:
                 data.append(['delay', r.randint(0, 3)])
             name = r.choice(EVENTS) if r.random() < 0.9 else 'zz'
+            if getattr(knobs, 'clock_moves', 0) and r.random() < knobs.clock_moves:
+                # the clock moves between two steps: queue() must use the *interpreter's* time
+                t += r.choice([1, 2, 3])
+                ops.append(['setclock', slot, t])
             ops.append(['queue', slot, {'ev': name, 'data': data}])
         elif c < 0.45 and knobs.flags:
             ops.append(['setvar', slot, 'v%d' % r.randrange(knobs.flags), r.random() < 0.5])
